@@ -407,12 +407,14 @@ def wl_history(ctx, rng, i):
                 mem2.load_from_file(written if pform != "file" else path)
             check_store(ctx, "MemoryStore(after save/load)", mem2, model, history, case)
             ctx.count("save_load_cycles")
+            if len({("spec_version" in x) for x in model.items}) > 1:
+                ctx.count("save_load_cycles_of_both_spec_versions")
         except Exception as e:
+            # (a store holding objects of both specification versions is saved like any other: the quantifier names both versions
+            # and the store accepts them side by side)
             vers = {("spec_version" in x) for x in model.items}
-            if len(vers) > 1:
-                ctx.skip("save_to_file of a store mixing 2.0 and 2.1 objects refused (%s)" % type(e).__name__)
-            else:
-                ctx.violation("save-load-raised", "save_to_file/load_from_file raised %s: %s" % (type(e).__name__, str(e)[:200]), dict(case, exception=repr(e)))
+            ctx.violation("save-load-raised" + (":store-of-both-spec-versions" if len(vers) > 1 else ""),
+                          "save_to_file/load_from_file raised %s: %s" % (type(e).__name__, str(e)[:200]), dict(case, exception=repr(e)))
         # loading a file into a store which is not empty: what it held and what the file holds are both there afterwards, also
         # when they are versions of the same id
         if len(model.items) >= 2:
@@ -429,10 +431,8 @@ def wl_history(ctx, rng, i):
                 ctx.count("loads_into_non_empty_store")
             except Exception as e:
                 vers = {("spec_version" in x) for x in model.items[1::2]}
-                if len(vers) > 1:
-                    ctx.skip("save_to_file of a store mixing 2.0 and 2.1 objects refused (%s)" % type(e).__name__)
-                else:
-                    ctx.violation("save-load-raised", "loading a saved file into a non-empty store raised %s: %s" % (type(e).__name__, str(e)[:200]), dict(case, exception=repr(e)))
+                ctx.violation("save-load-raised" + (":store-of-both-spec-versions" if len(vers) > 1 else ""),
+                              "loading a saved file into a non-empty store raised %s: %s" % (type(e).__name__, str(e)[:200]), dict(case, exception=repr(e)))
         # reopen the directory
         fs2 = stix2.FileSystemStore(fsdir, allow_custom=True)
         check_store(ctx, "FileSystemStore(reopened)", fs2, model, history, case)
@@ -453,6 +453,8 @@ def floors(m, tier):
     out = []
     if c.get("histories", 0) < 50:
         out.append("fewer than 50 histories completed")
+    if c.get("save_load_cycles_of_both_spec_versions", 0) < 10:
+        out.append("fewer than 10 save/load cycles of a store holding both specification versions")
     if c.get("save_load_cycles", 0) < 20:
         out.append("fewer than 20 save/load cycles")
     for f in ("object", "dict", "list", "bundle-object", "bundle-dict", "json-text", "multi-list", "multi-bundle-dict", "multi-bundle-object"):
